@@ -367,6 +367,51 @@ theorem addUnit_frame (tbl : UnitTable) (env env' : Env) (name : Str) (v : Val) 
   | str s => simp at h
   | arr l => simp at h
 
+theorem extendUnits_append (units us units' : List (Str × Val × Option Str))
+    (h : extendUnits units us = .ok units') : ∃ us', units' = units ++ us' := by
+  induction us generalizing units with
+  | nil => simp only [extendUnits, Except.ok.injEq] at h; exact ⟨[], by simp [h]⟩
+  | cons u rest ih =>
+    simp only [extendUnits] at h
+    split at h
+    · cases h
+    · obtain ⟨us', e⟩ := ih (units ++ [u]) h
+      exact ⟨u :: us', by simp [e]⟩
+
+theorem extendUnits_clash (units us : List (Str × Val × Option Str)) (u : Str × Val × Option Str)
+    (hu : u ∈ us) (hc : units.any (fun x => decide (x.1 = u.1)) = true) :
+    ∃ e, extendUnits units us = .error e := by
+  induction us generalizing units with
+  | nil => cases hu
+  | cons x rest ih =>
+    simp only [extendUnits]
+    by_cases hx : units.any (fun y => decide (y.1 = x.1)) = true
+    · exact ⟨"unit exists", by simp [hx]⟩
+    · simp only [hx, Bool.false_eq_true, if_false]
+      simp only [List.mem_cons] at hu
+      rcases hu with rfl | hu
+      · exact absurd hc hx
+      · exact ih (units ++ [x]) hu (by simp [List.any_append, hc])
+
+theorem importUnits_frame (env env' : Env) (source : Str) (name : Option Str)
+    (h : importUnits env source name = .ok env') :
+    env'.sources = env.sources ∧ ∃ us, env'.units = env.units ++ us := by
+  unfold importUnits at h
+  cases hf : env.srcUnits.find? (fun s => s.1 = source) with
+  | none => simp [hf] at h
+  | some s =>
+    simp only [hf] at h
+    split at h
+    · cases h
+    · rename_i us _
+      cases he : extendUnits env.units us with
+      | error e => simp [he] at h
+      | ok units' =>
+        simp only [he, Except.ok.injEq] at h
+        obtain ⟨us', e⟩ := extendUnits_append env.units us units' he
+        rw [← h]
+        exact ⟨rfl, us', e⟩
+
 theorem step_frame (tbl : UnitTable) (env env' : Env) (it : Item)
     (h : step tbl env it = .ok env') :
     env'.sources = env.sources ∧ ∃ us, env'.units = env.units ++ us := by
@@ -398,6 +443,9 @@ theorem step_frame (tbl : UnitTable) (env env' : Env) (it : Item)
       | error e => simp [hu] at h
       | ok ns => simp only [hu] at h; cases h; exact ⟨rfl, [], by simp⟩
   | case i k => simp [step] at h
+  | unitimp source name =>
+    simp only [step] at h
+    exact importUnits_frame env env' source name h
   | node n =>
     simp only [step] at h
     split at h
